@@ -1832,7 +1832,7 @@ def rule_list(ctx):
                 def walk(t, inside_load=False):
                     """-> (head link stored as such, head link loaded)"""
                     a = b_ = False
-                    if not isinstance(t, tuple):
+                    if not isinstance(t, tuple) or not t:
                         return a, b_
                     if t[0] == "call" and norm(t[1]) == "ebr_impl::pointers::RawAtomic::load":
                         if t[2] and "Iter.head" in show(t[2][0]):
